@@ -115,7 +115,7 @@ def params(rng, small=False):
     k = rng.randint(0 if small else 1, 4)
     return {"eta": rng.choice([0.6, 0.9, 0.75, 0.1]), "wl": rng.choice([0.05, 0.1, 0.2, 0.02, 0.5]), "dl": rng.choice([0.001, 0.01, 0.05, 0.1, 0.25]),   # (warning_level < detect_level is legal too; a fast-forgetting statistic with a wide warning zone warns from the first sample)
             "burn": rng.choice([0, 2, 5]) if small else rng.choice([5, 10, 20]), "sub": rng.choice([1, 2, 3]),
-            "num_mc": rng.choice([200, 400]), "rv": rng.choice([2, 4]), "tracked": sorted(rng.sample(RATES, k))}
+            "num_mc": rng.choice([200, 400]), "rv": rng.choice([2, 4, 1, 0]), "tracked": sorted(rng.sample(RATES, k))}
 
 
 def regime_cells(rng, n):
